@@ -86,8 +86,39 @@ def gen_case(rng, tier, avoid):
                 continue
             an = __import__('sim.schema', fromlist=['ITEM_ATTR']).ITEM_ATTR.get((op['kind'], kw), kw)
             later.append({'op': 'set', 'h': op['h'], 'attr': an, 'kw': kw, 'part': 'value', 'v': v, 'c': 0})
+        w2 = gen.write_op(spec, path='out2.dlis')
+        if rng.random() < 0.5:
+            # an indexed frame: the user pins INDEX-MIN / INDEX-MAX / SPACING after the first write - possibly to the very value
+            # that write derived from the data - and then writes other rows: the assigned value is what the file must carry
+            from .. import values as _v
+            chans = {op['h']: op for op in spec.ops if op.get('op') == 'add' and op['kind'] == 'channel'}
+            for fop in [op for op in spec.ops if op.get('op') == 'add' and op['kind'] == 'frame' and 'index_type' in op['kwargs']]:
+                c0 = chans.get((fop['kwargs'].get('channels') or [{}])[0].get('$ref'))
+                rc = ((c0 or {}).get('kwargs', {}).get('data') or {}).get('$arr')
+                if not rc or rc['dtype'][1] != 'f' or len(rc['shape']) != 1 or rc['shape'][0] < 3:
+                    continue
+                arr = _v.make_array(rc)
+                if (arr != arr).any() or not (abs(arr) < 1e30).all():
+                    continue
+                which = rng.choice(['index_min', 'index_max', 'index_max'])
+                if any(k in fop['kwargs'] for k in ('index_min', 'index_max', 'spacing', 'direction')):
+                    continue
+                val = float(arr.min() if which == 'index_min' else arr.max()) if rng.random() < 0.7 else 4321.5
+                cu = c0['kwargs'].get('units')
+                if isinstance(cu, str) and rng.random() < 0.4:
+                    # the units the first write copied from the index channel, assigned explicitly; then the channel's units change
+                    later.append({'op': 'set', 'h': fop['h'], 'attr': which, 'kw': which, 'part': 'units', 'v': cu, 'c': 0,
+                                  'pinned_index': True})
+                    later.append({'op': 'set', 'h': c0['h'], 'attr': 'units', 'kw': 'units', 'part': 'value',
+                                  'v': 'ft' if cu != 'ft' else 'm', 'c': 0})
+                else:
+                    later.append({'op': 'set', 'h': fop['h'], 'attr': which, 'kw': which, 'part': 'value', 'v': val, 'c': 0,
+                                  'pinned_index': True})
+                rows_min = min(((o['kwargs'].get('data') or {}).get('$arr') or {}).get('shape', [10 ** 6])[0] for o in chans.values())
+                w2['to_idx'] = rng.randint(1, max(rows_min - 1, 1))
+                break
         if later:
-            writes = [gen.write_op(spec, path='out1.dlis')] + later + [gen.write_op(spec, path='out2.dlis')]
+            writes = [gen.write_op(spec, path='out1.dlis')] + later + [w2]
     return {'scenario': {'env': {'tz': tz}, 'history': hist + writes},
             'params': {'noise': noise, 'defaults': defaults, 'later': bool(later)}}
 
@@ -124,6 +155,8 @@ def check_case(case, ex):
         for k in ('objects', 'attrs_checked', 'absent_checked', 'refs_checked'):
             C.bump(stats['probes'], k, s[k])
     C.bump(stats['probes'], 'tz_' + ('utc' if tz in (None, 'UTC') else 'other'))
+    if any(op.get('pinned_index') for op in hist):
+        C.bump(stats['probes'], 'index_attribute_pinned_after_first_write')
     stats['sim_time_s'] = 0.0
     stats['state_sigs'].append('%s|n%s|d%s|l%s' % (tz, Pm['noise'], Pm['defaults'], Pm['later']))
     return {'violations': out, 'stats': stats}
